@@ -743,6 +743,15 @@ pub fn process<I: BufRead, O: Write>(
                                     }
                                 }
 
+                                // A file that includes itself (directly or not) would recurse for ever
+                                if context.includes_stack.len() >= 64 {
+                                    return Err(Error::Syntax {
+                                        filename: filename.clone(),
+                                        included_in: included_in.clone(),
+                                        line,
+                                        msg: "Includes nested too deeply".to_string(),
+                                    });
+                                }
                                 // Process file
                                 let f = File::open(path)?;
                                 let assembler = fname.ends_with(".inc")
